@@ -108,6 +108,22 @@ def c15(tier):
             _dj("C15", "CoseKdfContext", arr, k), _dj("C15", "CoseSign", nest, k, ":nested")]
 
 
+def c17(tier):
+    """Label-typed positions inside containers (alg, crit entries, content type; kty, key alg, key_ops
+    entries; claim names): every integer classified as the registry says, compared with the reference
+    decoder over the independent registry table."""
+    if tier == "quick":
+        m = dict(max_array=2, max_map=1, max_text=1, max_depth=3, max_total_entries=1, max_total_items=2)
+        key = dict(max_array=2, max_map=2, max_text=1, max_depth=3, max_total_entries=2, max_total_items=2)
+    else:
+        m = dict(max_array=3, max_map=2, max_text=1, max_depth=3, max_total_entries=2, max_total_items=3)
+        key = dict(max_array=2, max_map=3, max_text=1, max_depth=3, max_total_entries=3, max_total_items=2)
+    nest = dict(max_array=4, max_nested_array=3, max_map=1, max_text=1, max_depth=5, max_total_entries=1,
+                max_total_items=8)
+    return [_dj("C17", "Header", m), _dj("C17", "ClaimsSet", m), _dj("C17", "CoseKey", key),
+            _dj("C17", "CoseSign1", nest, tag=":nested")]
+
+
 def c18(tier):
     if tier == "quick":
         cl = dict(max_array=2, max_map=2, max_text=1, max_depth=3, max_total_entries=2, max_total_items=2)
@@ -135,8 +151,19 @@ def _struct_pol(tier, top):
                 max_total_items=top + 8)
 
 
+def _create_side(prop, types, tier):
+    """The bytes the create / try-create builder helpers hand to the caller's function are the RFC
+    structure of the builder's state at the time of the call, after every history of <= 4 builder
+    calls (quick: 3 for the signature builders and the recipient builder); documented refusals (and nothing else) panic."""
+    cheap = ("CoseMac0", "CoseMac", "CoseEncrypt0", "CoseEncrypt")
+    return [("jobs_struct", "history_job", dict(prop=prop, tname=t, steps=4 if (tier != "quick" or t in cheap) else 3,
+                                                 palette=(0, 3), classes=("create-structure", "refusal", "panic")))
+            for t in types]
+
+
 def c03(tier):
     jobs = [("jobs_struct", "free_structure_job", dict(prop="C03", which="sig"))]
+    jobs += _create_side("C03", ("CoseSign1", "CoseSign"), tier)
     for t in ("CoseSign1", "CoseSign"):
         for built in (False, True):
             jobs.append(_sj("C03", t, _struct_pol(tier, 4), built))
@@ -145,6 +172,7 @@ def c03(tier):
 
 def c04(tier):
     jobs = [("jobs_struct", "free_structure_job", dict(prop="C04", which="mac"))]
+    jobs += _create_side("C04", ("CoseMac0", "CoseMac"), tier)
     for t, top in (("CoseMac0", 4), ("CoseMac", 5)):
         for built in (False, True):
             jobs.append(_sj("C04", t, _struct_pol(tier, top), built))
@@ -153,6 +181,7 @@ def c04(tier):
 
 def c05(tier):
     jobs = [("jobs_struct", "free_structure_job", dict(prop="C05", which="enc"))]
+    jobs += _create_side("C05", ("CoseEncrypt0", "CoseEncrypt", "CoseRecipient"), tier)
     for t, top in (("CoseEncrypt0", 3), ("CoseEncrypt", 4), ("CoseRecipient", 4)):
         for built in (False, True):
             jobs.append(_sj("C05", t, _struct_pol(tier, top), built))
@@ -246,6 +275,8 @@ def c13(tier):
 
 def c14(tier):
     pol = dict(_rt_pol(tier, "x"), max_total_entries=1)
+    if tier != "quick":
+        pol.update(max_nested_array=3, max_total_items=10)
     jobs = [("jobs_misc", "api_job", dict(prop="C14", tname=t, policy=dict(pol, max_array=5 if t == "CoseMac" else 4)))
             for t in ("CoseSign", "CoseSign1", "CoseMac", "CoseMac0", "CoseEncrypt", "CoseEncrypt0")]
     # untagged decoding of every structure type rejects every tagged item: part of C09's exploration,
@@ -260,7 +291,8 @@ def c16(tier):
 
 
 def c20(tier):
-    return [("jobs_misc", "canonicalize_job", dict(prop="C20", n_params=2 if tier == "quick" else 3))]
+    return [("jobs_misc", "canonicalize_job", dict(prop="C20", n_params=2 if tier == "quick" else 3)),
+            ("jobs_misc", "canonicalize_job", dict(prop="C20", n_params=2, long_text=[9, 10] if tier == "quick" else [9, 10, 24]))]
 
 
 def c01(tier):
